@@ -3,8 +3,17 @@
 Shared objects (finalizer-counting probes, locks, thread channels, and the reply channel of every worker) are sent again and
 again to threads that ALREADY hold them (echo through a worker and back, worker keeps it, give+take inside one thread, reply
 channel travelling with every request).  At quiescent points (every worker has answered and collected, main has collected)
-the real reference count of every watched object must equal  1 (C side) + number of threads that hold it;  after all
-workers are gone and main dropped everything: 1; every probe finalized exactly once, before janet_deinit."""
+the real reference count of every watched object must equal  1 (C side) + number of threads that hold it + number of
+UNDELIVERED messages that contain it and sit in a thread channel that is still alive;  after all workers are gone and main
+dropped everything: 1; every probe finalized exactly once, before janet_deinit.
+
+Undelivered messages ("strand" ops): a fresh carrier thread channel gets 1..3 messages that nobody takes; they carry watched
+objects, fresh probes / locks / channels and NESTED carriers (a fresh channel with its own undelivered message).  The carrier is
+dropped at once, kept by main until a later "release", or handed to a worker that keeps it until its next "drop" (then the
+finalizer - janet_chan_deinit -> janet_chan_unpack(.., is_cleanup) -> JANET_MARSHAL_DECREF - runs in that worker's collector or at
+its thread exit).  "takekept" delivers the oldest message of a kept carrier after all.  The in-transit reference of every
+object in an undelivered message must be given back exactly once when the carrier is finalized, and an object whose LAST
+reference was such a message must be finalized then."""
 import os
 import shutil
 import subprocess
@@ -32,6 +41,28 @@ PRE = r'''
 '''
 
 
+FRESH = ["probe", "probe", "lock", "rwlock", "chan"]
+
+
+def gen_msg(rng, nobj, depth=0):
+    items = []
+    for _ in range(rng.range(1, 3)):
+        k = rng.below(100)
+        if k < 40:
+            items.append(["obj", rng.below(nobj)])
+        elif k < 75 or depth >= 2:
+            items.append(["fresh", rng.choice(FRESH)])
+        else:
+            items.append(["nest", gen_msg(rng, nobj, depth + 1)])
+    return items
+
+
+def msg_count(items, i):
+    """number of marshalled messages (this one + nested carriers' messages) that contain watched object i"""
+    n = 1 if any(it[0] == "obj" and it[1] == i for it in items) else 0
+    return n + sum(msg_count(it[1], i) for it in items if it[0] == "nest")
+
+
 def gen(rng):
     nobj = rng.range(1, 5)
     kinds = [rng.choice(["probe", "probe", "lock", "lock", "rwlock", "chan"]) for _ in range(nobj)]
@@ -39,33 +70,81 @@ def gen(rng):
     ops = []
     holds = [set() for _ in range(nw)]
     expect = []  # per check: list of expected counts for objects then reply channels
+    carriers = []  # live carrier channels with undelivered messages: {"holder": "keep" | worker index, "msgs": [[item..]..]}
+    kept = []      # carriers in main's `kept` array, by position
+
+    def counts():
+        tr = [sum(msg_count(m, i) for c in carriers for m in c["msgs"]) for i in range(nobj)]
+        return [2 + sum(1 for h in holds if i in h) + tr[i] for i in range(nobj)] + [3] * nw
+
     for _ in range(rng.range(4, 25)):
         k = rng.below(100)
         o, w = rng.below(nobj), rng.below(nw)
-        if k < 40:
+        if k < 30:
             ops.append(("echo", w, o))
-        elif k < 55:
+        elif k < 42:
             ops.append(("hold", w, o))
             holds[w].add(o)
-        elif k < 65:
+        elif k < 52:
             ops.append(("drop", w))
             holds[w] = set()
-        elif k < 80:
+            carriers = [c for c in carriers if c["holder"] != w]
+        elif k < 62:
             ops.append(("self", o))
+        elif k < 78:
+            msgs = [gen_msg(rng, nobj) for _ in range(rng.range(1, 3))]
+            hk = rng.below(3)
+            holder = "now" if hk == 0 else ("keep" if hk == 1 else w)
+            ops.append(("strand", holder, msgs))
+            if holder != "now":
+                c = {"holder": holder, "msgs": [list(m) for m in msgs]}
+                carriers.append(c)
+                if holder == "keep":
+                    kept.append(c)
+        elif k < 82:
+            ops.append(("release",))
+            carriers = [c for c in carriers if c["holder"] != "keep"]
+            kept = []
+        elif k < 89:
+            live = [j for j, c in enumerate(kept) if c["msgs"]]
+            if live:
+                j = rng.choice(live)
+                kept[j]["msgs"].pop(0)
+                ops.append(("takekept", j))
         else:
             ops.append(("check",))
-            expect.append([2 + sum(1 for h in holds if i in h) for i in range(nobj)] + [3] * nw)
+            expect.append(counts())
     ops.append(("check",))
-    expect.append([2 + sum(1 for h in holds if i in h) for i in range(nobj)] + [3] * nw)
-    return {"kinds": kinds, "nw": nw, "ops": ops, "expect": expect}
+    expect.append(counts())
+    # after the workers ended only main's kept carriers still hold messages
+    carriers = [c for c in carriers if c["holder"] == "keep"]
+    holds = [set() for _ in range(nw)]
+    end = [x - (1 if j < nobj and kinds[j] == "probe" else 0) for j, x in enumerate(counts())]
+    end = end[:nobj] + [2] * nw
+    return {"kinds": kinds, "nw": nw, "ops": ops, "expect": expect, "expect_end": end}
+
+
+MK = {"probe": "(rc/probe)", "lock": "(ev/lock)", "rwlock": "(ev/rwlock)", "chan": "(ev/thread-chan 2)"}
+
+
+def render_items(items):
+    out = []
+    for it in items:
+        if it[0] == "obj":
+            out.append("(objs %d)" % it[1])
+        elif it[0] == "fresh":
+            out.append("(touch %s)" % MK[it[1]])
+        else:
+            out.append("(let [n (ev/thread-chan 2)] (ev/give n [%s]) n)" % render_items(it[1]))
+    return " ".join(out)
 
 
 def render(scn):
-    mk = {"probe": "(rc/probe)", "lock": "(ev/lock)", "rwlock": "(ev/rwlock)", "chan": "(ev/thread-chan 2)"}
+    mk = MK
     o = [PRE, "(defn run []"]
     o.append("  (def objs [%s])" % " ".join((mk[k] if k == "probe" else "(rc/watch %s)" % mk[k]) for k in scn["kinds"]))
     o.append("  (def reqs @[]) (def backs @[]) (def done (ev/chan 8))")
-    o.append("  (def loopc (ev/thread-chan 4))")
+    o.append("  (def loopc (ev/thread-chan 4)) (def kept @[])")
     for w in range(scn["nw"]):
         o.append("  (let [req (ev/thread-chan 2) back (rc/watch (ev/thread-chan 2))] (array/push reqs req) (array/push backs back)")
         o.append("    (ev/spawn (ev/thread worker-main [req back]) (ev/give done %d)))" % w)
@@ -80,6 +159,20 @@ def render(scn):
             o.append("  (call %d [:drop nil (backs %d)])" % (op[1], op[1]))
         elif op[0] == "self":
             o.append("  (do (ev/give loopc [(objs %d)]) (if (not= ((ev/take loopc) 0) (objs %d)) (print \"SELF-MISMATCH\")))" % (op[1], op[1]))
+        elif op[0] == "strand":
+            # the carrier and the fresh objects live only in the frame of this call (popped on return: no stale stack slot keeps them)
+            gives = " ".join("(ev/give m [%s])" % render_items(m) for m in op[2])
+            if op[1] == "now":
+                fate = ""
+            elif op[1] == "keep":
+                fate = "(array/push kept m)"
+            else:
+                fate = "(call %d [:hold m (backs %d)])" % (op[1], op[1])
+            o.append("  ((fn [] (def m (ev/thread-chan 4)) %s %s nil))" % (gives, fate))
+        elif op[0] == "release":
+            o.append("  (array/clear kept)")
+        elif op[0] == "takekept":
+            o.append("  ((fn [] (each x (ev/take (kept %d)) (touch x)) nil))" % op[1])
         else:
             o.append("  (for w 0 %d (call w [:gc nil (backs w)]))" % scn["nw"])
             o.append("  (gccollect)")
@@ -136,8 +229,10 @@ def oracle(scn, rc, out, err):
         end = [l for l in lines if l.startswith("RCEND ")]
         if end:
             got = [int(x) for x in end[0].split()[1:]]
-            if got != [1 if k == "probe" else 2 for k in scn["kinds"]] + [2] * nw:
-                bad.append(("refcount-mismatch", "after all worker threads ended: reference counts %r, expected 2 each (C side + main thread; probes 1)" % got))
+            exp_end = scn.get("expect_end") or ([1 if k == "probe" else 2 for k in scn["kinds"]] + [2] * nw)
+            if got != exp_end:
+                bad.append(("refcount-mismatch", "after all worker threads ended: reference counts %r, expected %r (C side + main thread "
+                            "+ undelivered messages in carriers main still keeps; probes have no C side)" % (got, exp_end)))
         fin = [l.split() for l in lines if l.startswith("FINAL ")]
         stuck = [(int(a), int(b)) for _, a, b in fin if int(b) != 1]
         if stuck:
